@@ -257,6 +257,35 @@ func extractGroup(repo, root string) error {
 			len(commitReq), len(hbReq), len(leaveReq), len(genLit))
 	}
 
+	// reader.go unsubscribe: does it cancel a func it was GIVEN (parameter) or the Reader's current one (selector)?
+	unsubCancels := ""
+	if fd := funcOf(rf, "Reader", "unsubscribe"); fd != nil {
+		params := map[string]bool{}
+		for _, f := range fd.Type.Params.List {
+			for _, n := range f.Names {
+				params[n.Name] = true
+			}
+		}
+		ast.Inspect(fd.Body, func(n ast.Node) bool {
+			if c, ok := n.(*ast.CallExpr); ok && len(c.Args) == 0 {
+				switch f := c.Fun.(type) {
+				case *ast.Ident:
+					if params[f.Name] && unsubCancels == "" {
+						unsubCancels = "parameter"
+					}
+				case *ast.SelectorExpr:
+					if f.Sel.Name == "cancel" && unsubCancels == "" {
+						unsubCancels = "reader-field"
+					}
+				}
+			}
+			return true
+		})
+	}
+	if unsubCancels == "" {
+		return fmt.Errorf("untranslated: Reader.unsubscribe does not call a cancel func")
+	}
+
 	// reader.go NewReader: the ConsumerGroupConfig literal — which ReaderConfig field feeds which ConsumerGroupConfig field
 	var optPairs []string
 	if fd := funcOf(rf, "", "NewReader"); fd != nil {
@@ -290,6 +319,7 @@ func extractGroup(repo, root string) error {
 	fmt.Fprintf(&b, "def heartbeatRequestFields : List (String × String) := [%s]\n", strings.Join(hbReq, ", "))
 	fmt.Fprintf(&b, "def leaveRequestFields : List (String × String) := [%s]\n", strings.Join(leaveReq, ", "))
 	fmt.Fprintf(&b, "def generationLiteral : List (String × String) := [%s]\n", strings.Join(genLit, ", "))
+	fmt.Fprintf(&b, "def unsubscribeCancels : String := %q\n", unsubCancels)
 	fmt.Fprintf(&b, "def fetchVersionFilter : String := %q\n", versionOp)
 	fmt.Fprintf(&b, "def readerGroupOptions : List (String × String) := [%s]\n", strings.Join(optPairs, ", "))
 	b.WriteString("end KV.Gen.Group\n")
